@@ -80,6 +80,14 @@ let () =
                     | "asrk" -> emit_asr asr_fast_width_left m t i64 true a b
                     | "cdiv" -> op_cdiv t a b
                     | "crem" -> op_crem t a b
+                    | "tdiv" -> op_tdiv t a b
+                    | "tmod" -> op_tmod t a b
+                    | "lt" -> op_lt t a b
+                    | "le" -> op_le t a b
+                    | "eq" -> op_eq t a b
+                    | "ltsu" -> h_lt_su t u64 a b      (* int64 < uint64 *)
+                    | "ltus" -> h_lt_us u64 t b a      (* uint64 < int64 (operands given as signed, unsigned) *)
+                    | "eqsu" -> h_eq_su t u64 a b
                     | s -> failwith ("helper " ^ s))
            | "narrowf" ->
              out_s (h_narrow_f2i (ity_of (List.nth args 0)) (List.nth args 1 = "1") (fl_of (List.nth args 2)))
